@@ -97,6 +97,15 @@ def units(rng, tier):
         _gid[0] += 1
         kw = {"objective": rng.choice([[0, 0], [0, 0], [0, 0], [1, 0], [2, 0], [3, 2], [4, 2]]), "flags": rng.choice([[1, 1, 0, 1], [1, 1, 0, 1], [rng.randint(0, 1) for _ in range(4)]])}
         us.append(tag(part_unit("cg", k, v, rng, fmt="list", out="sums", cmp="value", family="cg-dense-agreement", **kw), f"{_gid[0]}/cg", "base"))
+    # dense agreement stream for SNP on plain lists with REPEATED values (3-4 bins, 8-11 items drawn from a small pool): whatever the tree
+    # keys by the item itself (a memo, a table of suffix sums) collides on equal numbers, and the optimum is lost on about 1 such input in 50
+    for _ in range(250 if tier == "quick" else 5000):
+        k = rng.choice([3, 4, 4])
+        n = rng.randint(8, 11)
+        pool = [rng.randint(1, 40) for _ in range(rng.randint(max(3, n // 2), n - 1))]
+        v = [rng.choice(pool) for _ in range(n)]
+        _gid[0] += 1
+        us.append(tag(part_unit("snp", k, v, rng, fmt="list", out="sums", cmp="value", family="snp-dense-duplicates"), f"{_gid[0]}/snp", "base"))
     # planted PERFECT partitions (total divisible by the number of bins, every bin exactly T): where the bounds of the searches are tight and
     # an off-by-one in a bound or a tie changes the answer for some scale factors only; complete greedy under every objective and random switches
     for _ in range(80 if tier == "quick" else 900):
